@@ -29,6 +29,10 @@ impl Serialize for AsStrings<'_> {
     where
         S: serde::Serializer,
     {
+        if let PrimitiveValue::Tags(tags) = self.0 {
+            // attribute tags are encoded as 8 hexadecimal digits (PS3.18 F.2.3)
+            return serializer.collect_seq(tags.iter().map(|tag| crate::DicomJson(*tag)));
+        }
         let strings = self.0.to_multi_str();
         serializer.collect_seq(&*strings)
     }
